@@ -115,6 +115,7 @@ def tlc(spec, cfg, name, env=None, workers=None, timeout=1500, extra=None, heap=
     os.makedirs(md)
     cmd = ["timeout", str(timeout), "java", "-XX:+UseParallelGC", "-Xmx" + heap, "-Xss64m", "-cp", TLA_CP, "tlc2.TLC",
            "-workers", str(workers or NCPU), "-metadir", md, "-config", cfg + ".cfg"]
+    cmd.append("-noGenerateSpecTE")  # never write trace-expression specs (slow with many violations)
     if cont:
         cmd.append("-continue")
     if simulate:
